@@ -99,17 +99,17 @@ Proof.
       try (apply closed_bclosed; assumption).
     rewrite N1 in A, B. unfold rs in B; simpl in A, B; split; lia.
   - (* UNot *) rewrite Enot. cbn [mkun uf_paren uf_not lvl rstop]. unfold L_CLOSED, L_NOT. split; lia.
-  - (* UIsNull *) destruct (bclosed_levels _ (closed_bclosed t H0 H)).
+  - (* UIsNull *) destruct (bclosed_levels _ (closed_bclosed t ltac:(assumption) ltac:(assumption))).
     cbn [lvl rstop]. unfold L_CLOSED, L_IS. split; lia.
   - (* UIsNotNull *) destruct (c_isnotnull_paren c); cbn [lvl rstop]; unfold L_CLOSED, L_NOT; split; lia.
-  - (* UIsin *) destruct (bclosed_levels _ (closed_bclosed t H0 H)).
+  - (* UIsin *) destruct (bclosed_levels _ (closed_bclosed t ltac:(assumption) ltac:(assumption))).
     cbn [lvl rstop]. unfold L_CLOSED, L_BIL. split; lia.
-  - (* UBetween *) destruct (bclosed_levels _ (closed_bclosed t1 H2 H)).
-    destruct (bclosed_levels _ (closed_bclosed t3 H0 H3)).
+  - (* UBetween *) destruct (bclosed_levels _ (closed_bclosed t1 ltac:(assumption) ltac:(assumption))).
+    destruct (bclosed_levels _ (closed_bclosed t3 ltac:(assumption) ltac:(assumption))).
     cbn [lvl rstop]. unfold L_BIL. split; lia.
-  - (* ULike *) destruct (bclosed_levels _ (closed_bclosed t H0 H)). rewrite EL.
+  - (* ULike *) destruct (bclosed_levels _ (closed_bclosed t ltac:(assumption) ltac:(assumption))). rewrite EL.
     cbn [lvl rstop]. unfold rs, L_CLOSED; cbn [blvl nonassoc]. split; lia.
-  - (* UILike *) destruct (bclosed_levels _ (closed_bclosed t H0 H)). rewrite EIL.
+  - (* UILike *) destruct (bclosed_levels _ (closed_bclosed t ltac:(assumption) ltac:(assumption))). rewrite EIL.
     cbn [lvl rstop]. unfold rs, L_CLOSED; cbn [blvl nonassoc]. split; lia.
   - (* UAlias *) auto.
 Qed.
@@ -227,7 +227,7 @@ Proof.
   - (* UGetItemLit *) destruct a; try discriminate. reflexivity.
   - (* UGetItemCol *) destruct a; try discriminate.
     match goal with E : (_ =? _)%Z = true |- _ => apply Z.eqb_eq in E; rewrite E end.
-    cbn [Z.eqb build safe rstop andb]. ih H0 Si.
+    unfold offset_key. cbn [Z.eqb Z.ltb Z.compare Pos.compare build safe rstop andb]. ih H0 Si.
     destruct (closed_operand c0 ltac:(assumption) ltac:(assumption) Si 1 false) as [_ Ri]; [lia|].
     solve_and. apply Nat.ltb_lt. simpl. lia.
   - (* UBElse *) cbn [safeb]. auto.
